@@ -63,7 +63,7 @@ def _new_handler(rng, prog, part, kind, name, safe):
     return h
 
 
-def gen_program(rng, name, n_ifaces=None, customs=None, error=None, profile="general"):
+def gen_program(rng, name, n_ifaces=None, customs=None, error=None, profile="general", ext_names=True):
     """Draws one valid program."""
     if customs is None:
         c = rng.random()
@@ -82,18 +82,32 @@ def gen_program(rng, name, n_ifaces=None, customs=None, error=None, profile="gen
         n_ifaces = rng.choice([0, 1, 1, 2, 2, 3])
     used_wire = {k: set() for k in KINDS_ENUM}  # wire names per kind across all parts
     all_names = []  # (kind, name, safe) pool for deliberate cross-kind reuse
+    pending = []    # names queued on purpose (method-name order != wire-name order pairs)
 
     def fresh_name(part_taken, kind):
-        for _ in range(200):
-            if all_names and rng.random() < 0.35:
+        for _ in range(300):
+            if pending and kind in KINDS_ENUM:
+                nm, safe = pending.pop(0), False
+            elif all_names and rng.random() < 0.35:
                 k2, nm, safe = rng.choice(all_names)
                 if k2 == kind:
                     continue
+            elif ext_names and rng.random() < 0.18:
+                nm, safe = T.extended_name(rng), False
+                if kind in KINDS_ENUM and rng.random() < 0.3:
+                    # `w_1` sorts after `w2` as a method name but before it as a wire name
+                    w = rng.choice(T.WORDS_SAFE)
+                    nm = f"{w}_1"
+                    pending.append(f"{w}2")
             else:
                 nm, safe = T.method_name(rng)
-            if nm in part_taken or nm in T.RUST_RESERVED:
+            if nm in part_taken or nm in T.RUST_RESERVED or T.wire_name(nm) in T.RUST_RESERVED:
                 continue
-            if kind in used_wire and nm in used_wire[kind]:
+            # Rust method names within the part, variant identifiers within a message type and wire
+            # names within a kind (across parts) must all be unique
+            if T.wire_name(nm) in {T.wire_name(x) for x in part_taken}:
+                continue
+            if kind in used_wire and T.wire_name(nm) in used_wire[kind]:
                 continue
             return nm, safe
         raise RuntimeError("names exhausted")
@@ -113,7 +127,7 @@ def gen_program(rng, name, n_ifaces=None, customs=None, error=None, profile="gen
         for _ in range(rng.choice([0, 1, 2, 2, 3])):
             nm, safe = fresh_name(taken, kind)
             taken.add(nm)
-            used_wire[kind].add(nm)
+            used_wire[kind].add(T.wire_name(nm))
             all_names.append((kind, nm, safe))
             cpart["handlers"].append(_new_handler(rng, prog, cpart, kind, nm, safe))
 
@@ -129,7 +143,7 @@ def gen_program(rng, name, n_ifaces=None, customs=None, error=None, profile="gen
             for _ in range(rng.choice([0, 1, 1, 2])):
                 nm, safe = fresh_name(taken, kind)
                 taken.add(nm)
-                used_wire[kind].add(nm)
+                used_wire[kind].add(T.wire_name(nm))
                 all_names.append((kind, nm, safe))
                 part["handlers"].append(_new_handler(rng, prog, part, kind, nm, safe))
         prog["parts"].append(part)
@@ -146,6 +160,15 @@ def gen_program(rng, name, n_ifaces=None, customs=None, error=None, profile="gen
                     if hs[0].get("resp_explicit"):
                         hs[1]["resp_explicit"] = hs[0]["resp_explicit"]
 
+    # a wide handler: >= 10 parameters over two types, so that any permutation of the arguments type-checks
+    if rng.random() < 0.3:
+        cands = [h for p_ in prog["parts"] for h in p_["handlers"] if h["kind"] in KINDS_ENUM + ["instantiate"]]
+        if cands:
+            h = rng.choice(cands)
+            ta, tb = intern_type(prog, T.U32), intern_type(prog, rng.choice([T.U32, T.STRING]))
+            n = rng.choice([10, 11, 12, 13])
+            h["args"] = [{"name": f"p{i + 1}", "ti": (ta if rng.random() < 0.7 else tb)} for i in range(n)]
+
     # shape overlap across kinds: instantiate/migrate arg named like an enum message whose
     # body has the shape of that arg (C04)
     inst = cpart["handlers"][0]
@@ -153,7 +176,7 @@ def gen_program(rng, name, n_ifaces=None, customs=None, error=None, profile="gen
              and h["name"] not in T.RUST_RESERVED]
     if execs and rng.random() < 0.4:
         h = rng.choice(execs)
-        if len(h["args"]) == 2 and not inst["args"]:
+        if len(h["args"]) == 2 and not inst["args"] and T.wire_name(h["name"]) == h["name"]:
             # enum body {x:u32,label:String} vs struct arg of type Pt
             h["args"] = [{"name": "x", "ti": intern_type(prog, T.U32)},
                          {"name": "label", "ti": intern_type(prog, T.STRING)}]
